@@ -37,6 +37,7 @@ def opaque(name):
 def make_env():
     env = Env()
     env.pre_obligations = []
+    env.pre_formulas = []
     env.reads = 0
     env.consts[("VERSION",)] = sp.Symbol("VERSION")
     env.consts[("F", "S")] = sp.Symbol("F_S")
@@ -58,7 +59,22 @@ def make_env():
     for t in ("u8", "u16", "u32", "u64", "usize"):
         env.calls[(t, "from_le_bytes")] = from_le
     env.methods["into"] = lambda en, r, a: r
-    env.calls[("EvaluationDomain", "new")] = lambda en, a: opaque("domain")
+    clog2 = sp.Function("ceil_log2")
+
+    def domain_new(en, a):
+        # contract of EvaluationDomain::new(j, k): asserts extended_k <= F::S where
+        # extended_k = k + ceil_log2(j - 1) (the loop doubling 2^extended_k until it reaches 2^k (j - 1))
+        if len(a) != 2 or not all(isinstance(x, sp.Expr) for x in a):
+            raise Unsupported("EvaluationDomain::new on unexpected arguments")
+        ext = sp.expand(a[1] + clog2(a[0] - 1))
+        en.pre_formulas.append(("precondition of EvaluationDomain::new: k + ceil_log2(j - 1) <= F::S (its assert!)",
+                                en.path, ("not", ("atom", "%s > %s" % (ext, sp.Symbol("F_S")))))) 
+        return opaque("domain")
+    env.calls[("EvaluationDomain", "new")] = domain_new
+    # u64::next_power_of_two().trailing_zeros() = ceil_log2 (for arguments >= 1; 0 -> 0 as well)
+    env.methods["saturating_sub"] = lambda en, r, a: sp.expand(r - a[0])
+    env.methods["next_power_of_two"] = lambda en, r, a: sp.Function("npo2")(r)
+    env.methods["trailing_zeros"] = lambda en, r, a: clog2(r.args[0]) if getattr(r, "func", None) == sp.Function("npo2") else sp.Function("tz")(r)
     env.calls[("Commitment", "read")] = lambda en, a: Opt(opaque("commitment"), ("atom", "commitment_read ok"))
     env.methods[("ConstraintSystem", "degree")] = lambda en, r, a: sp.Symbol("cs_degree")
 
@@ -110,10 +126,18 @@ def _inputs():
 FUNCTIONS = {
     "vk_read_from_cs.fixed_commitment_count": {
         "item": ["impl<F, CS> VerifyingKey<F, CS>", "fn read_from_cs"],
-        "inputs": _inputs,
+        "inputs": _inputs, "only": "ideal",
         "hyps": lambda loc: [],
         "goals": lambda env, out, loc: [],     # the goals are the callee preconditions collected on the way
-        "witness": "fixed_commitment_count",
+        "witness": "fixed_commitment_count", "needs_witness": True,
         "clause": "whenever read_from_cs reaches VerifyingKey::from_parts, the guards it passed entail from_parts' precondition -- exactly one fixed commitment per fixed column of the selector-free constraint system (a key whose count field disagrees with the circuit must be rejected: the verifier indexes vk.fixed_commitments[column.index()]) -- and the assertion of directly_convert_selectors_to_fixed",
+    },
+    "vk_read_from_cs.domain_size": {
+        "item": ["impl<F, CS> VerifyingKey<F, CS>", "fn read_from_cs"],
+        "inputs": _inputs, "only": "formula",
+        "hyps": lambda loc: [],
+        "goals": lambda env, out, loc: [],
+        "witness": "domain_size", "needs_witness": True,
+        "clause": "the guards passed before EvaluationDomain::new(cs.degree(), k) imply its assertion k + ceil_log2(degree - 1) <= F::S (the extended evaluation domain must fit the field's 2-adicity): a key whose k byte is too large for the circuit's degree must be rejected, not panic",
     },
 }
